@@ -273,10 +273,18 @@ pub fn gen_e(t: &mut Tape, sc: &Scope, ty: Ty, depth: usize) -> E {
             }
             4 => {
                 let mut sc2 = sc.clone();
-                let (p, q) = (sc2.fresh_name("x"), sc2.fresh_name("y"));
+                let p = sc2.fresh_name("x");
                 sc2.nums.push(p.clone());
-                let body = bin(Op::Add, gen_e(t, &sc2, Ty::N, d), bin(Op::Coalesce, E::Id(q.clone()), n(0.0)));
-                E::Lambda(vec![P::Req(p), P::Opt(q)], b(body))
+                // the optional (or rest) parameter may be named like an outer / captured name
+                let q = local_name(t, &mut sc2, "y");
+                sc2.nums.retain(|n| n != &q);
+                if t.chance(1, 4) {
+                    let body = bin(Op::Add, gen_e(t, &sc2, Ty::N, d), call(E::BuiltIn("len".into()), vec![E::Id(q.clone())]));
+                    E::Lambda(vec![P::Req(p), P::Rest(q)], b(body))
+                } else {
+                    let body = bin(Op::Add, gen_e(t, &sc2, Ty::N, d), bin(Op::Coalesce, E::Id(q.clone()), n(0.0)));
+                    E::Lambda(vec![P::Req(p), P::Opt(q)], b(body))
+                }
             }
             5 => {
                 // curried: (k => x => N)(N)
